@@ -1,7 +1,8 @@
-/- Driver glue for C02: case lines `c02.<sub> <args…> | <impl…>` (stub until the property is built) -/
-import FileD.Prelude.Tok
+/- Driver glue for C02: same pipeline trace as C01 (see Drv/C01.lean), order/once/conservation oracle -/
+import FileD.Drv.C01
 namespace FileD.DrvC02
 
-def handle (_cmd : String) (_args _impl : List String) : Option (String × String) := none
+def handle (cmd : String) (args impl : List String) : Option (String × String) :=
+  if cmd = "c02.run" then FileD.DrvC01.handle cmd args impl else none
 
 end FileD.DrvC02
